@@ -165,11 +165,7 @@ def run(ctx):
         ctx.check(g3, "S2", "reference", "the yielded item is the EFIMemoryDesc reference at that pointer", B.site(), how=G.show(somes[0].val)[:200] if somes else "",
                   why=G.show(somes[0].val)[:300] if somes else "no Some exit")
         # writes
-        writes = []
-        for bb in sorted(b.reachable):
-            for si, st in enumerate(b.stmts(bb)):
-                if st["k"] == "assign" and st["lhs"]["l"] == 1 and st["lhs"].get("p"):
-                    writes.append((bb, st["lhs"]["p"][1].get("n"), N(B.tb.rvalue(st["rv"], (bb, si), st))))
+        writes = [(bb, name, N(v)) for (bb, _si, name, v) in an.writes_through(B, 1)]
         gw = len(writes) == 1 and writes[0][1] == "i" and writes[0][2] == ("bin", "Add", i_t, ("c", 1))
         none_clean = bool(nones) and all(not b.dominates(w[0], nones[0].bb) for w in writes)
         some_adv = bool(somes) and all(b.dominates(w[0], somes[0].bb) for w in writes)
